@@ -5,11 +5,13 @@ links as a native executable.
 -/
 import Verif.Drv.Runner
 import Verif.Drv.KV
+import Verif.Drv.Chain
 
 open Verif.Drv
 
 def registry : List (String × List (String × Model)) := [
-  ("kv", kvModels)
+  ("kv", kvModels),
+  ("chain", chainModels)
 ]
 
 def findModel (ws : List String) : Option (Model × List String) :=
